@@ -484,6 +484,10 @@ func (c *FnCtx) resolveLocal(name string, header *ssa.BasicBlock) *ssa.Alloc {
 		fmt.Sscanf(name[k+1:], "%d", &want)
 		name = name[:k]
 	}
+	if name == "rangeiter" {
+		// hidden counter of a range-over-int loop
+		name = "rangeint.iter"
+	}
 	var cands []*ssa.Alloc
 	if c.fn == nil {
 		return nil
